@@ -82,7 +82,7 @@ theorem changeGainStmSegment_rejected (s : State) (d : Array Nat) :
   unfold changeGainStmSegment stmSegmentUpdate
   fw_ack
 
-/-! the other twelve handlers (and unknown tags) never answer `ERR_INVALID_SILENCER_SETTING` -/
+/-! the other eleven handlers (and unknown tags) never answer `ERR_INVALID_SILENCER_SETTING` -/
 
 theorem clear_never (s : State) (d : Array Nat) :
     Post (clear s d) (fun r => r.2 ≠ ERR_INVALID_SILENCER_SETTING) := by
@@ -100,9 +100,10 @@ theorem writeGain_never (s : State) (d : Array Nat) :
     Post (writeGain s d) (fun r => r.2 ≠ ERR_INVALID_SILENCER_SETTING) := by
   unfold writeGain; fw_ack
 
-theorem changeGainSegment_never (s : State) (d : Array Nat) :
-    Post (changeGainSegment s d) (fun r => r.2 ≠ ERR_INVALID_SILENCER_SETTING) := by
-  unfold changeGainSegment; fw_ack
+theorem changeGainSegment_rejected (s : State) (d : Array Nat) :
+    Post (changeGainSegment s d) (fun r => r.2 = ERR_INVALID_SILENCER_SETTING → r.1 = s) := by
+  unfold changeGainSegment
+  fw_ack
 
 theorem configureForceFan_never (s : State) (d : Array Nat) :
     Post (configureForceFan s d) (fun r => r.2 ≠ ERR_INVALID_SILENCER_SETTING) := by
@@ -152,7 +153,7 @@ theorem handlePayload_rejected (s : State) (d : Array Nat) :
   · exact Post_mono (changeModSegment_rejected s d) (fun r hr h => by rw [hr h]; rfl)
   · exact Post_mono (configSilencer_rejected s d) (fun r hr h => by rw [hr h]; rfl)
   · exact Post_mono (writeGain_never s d) (fun r hr h => absurd h hr)
-  · exact Post_mono (changeGainSegment_never s d) (fun r hr h => absurd h hr)
+  · exact Post_mono (changeGainSegment_rejected s d) (fun r hr h => by rw [hr h]; rfl)
   · exact Post_mono (changeGainStmSegment_rejected s d) (fun r hr h => by rw [hr h]; rfl)
   · exact Post_mono (writeFociStm_rejected s d) (fun r hr h => by rw [hr h]; rfl)
   · exact Post_mono (changeFociStmSegment_rejected s d) (fun r hr h => by rw [hr h]; rfl)
